@@ -402,6 +402,7 @@ func wgAddBalanced(c *ctx, s *goSite, wg ssa.Value) string {
 	add := adds[0]
 	// number of goroutines (and callback registrations) signalling this wg per loop iteration
 	perIter := 0
+	var spawnBlocks []*ssa.BasicBlock // where the signalling goroutines / callbacks are started
 	if s.loop != nil {
 		for b := range s.loop.In {
 			for _, in := range b.Instrs {
@@ -410,6 +411,7 @@ func wgAddBalanced(c *ctx, s *goSite, wg ssa.Value) string {
 					if mc, ok := core.Strip(x.Call.Value).(*ssa.MakeClosure); ok {
 						if wgDoneTarget(mc.Fn.(*ssa.Function)) == wg {
 							perIter++
+							spawnBlocks = append(spawnBlocks, b)
 						}
 					}
 				case *ssa.Call:
@@ -417,6 +419,7 @@ func wgAddBalanced(c *ctx, s *goSite, wg ssa.Value) string {
 						if mc, ok := core.Strip(a).(*ssa.MakeClosure); ok {
 							if wgDoneTarget(mc.Fn.(*ssa.Function)) == wg {
 								perIter++
+								spawnBlocks = append(spawnBlocks, b)
 							}
 						}
 					}
@@ -441,6 +444,14 @@ func wgAddBalanced(c *ctx, s *goSite, wg ssa.Value) string {
 				o := at.Args[1-i]
 				ht := core.TermOf(s.loop.Hi)
 				if o.Op == "bin-" && constIs(o.Args[1], 1) && o.Args[0].Key() == ht.Key() && skipsSelfOnly(s.loop) {
+					// every signalling goroutine is started in every iteration but the party's own: an
+					// iteration that leaves early (continue / error path) before a `go` leaves Done calls
+					// missing and Wait blocks for ever
+					for _, sb := range spawnBlocks {
+						if cv := coverage(s.loop, sb); cv != "all-but-self" {
+							return fmt.Sprintf("WaitGroup.Add(%s) counts every peer, but a goroutine that signals it is started only in %s iterations (an early `continue` skips it): Wait never returns; ", at, cv)
+						}
+					}
 					return ""
 				}
 			}
@@ -506,6 +517,8 @@ func isPerIndexChan(v ssa.Value) bool {
 	return false
 }
 
+var sendHelperBusy = map[*ssa.Function]bool{}
+
 func callsOnAllPathsSend(cl *ssa.Function, mk *ssa.MakeChan) (bool, string) {
 	// reuse the path counter with a pseudo-call predicate over Send instructions
 	type mm struct{ lo, hi int }
@@ -521,6 +534,17 @@ func callsOnAllPathsSend(cl *ssa.Function, mk *ssa.MakeChan) (bool, string) {
 			if snd, ok := i.(*ssa.Send); ok && core.ChanMake(snd.Chan) == mk {
 				cur.lo++
 				cur.hi++
+			}
+			// a local helper closure that itself sends exactly once on the channel (fail := func(…){ ch <- … })
+			if call, ok := i.(*ssa.Call); ok {
+				if g := core.Callee(call); g != nil && g.Parent() != nil && g != cl && core.Outermost(g) == core.Outermost(cl) && !sendHelperBusy[g] {
+					sendHelperBusy[g] = true
+					if once, _ := callsOnAllPathsSend(g, mk); once {
+						cur.lo++
+						cur.hi++
+					}
+					delete(sendHelperBusy, g)
+				}
 			}
 			if _, ok := i.(*ssa.Return); ok {
 				if cur.lo < retLo {
